@@ -432,27 +432,30 @@ open PMV PMV.Transforms PMV.Minify
 
 /-! ### `raise N()` → `raise N` -/
 
+theorem raiseName_stripCall (el : List String) (e c : Option Expr) :
+    raiseName (stripCall el e) (stripCall el c) = raiseName e c := by
+  cases c with
+  | some c' =>
+    have h1 : ∀ x, raiseName x (some c') = none := by intro x; unfold raiseName; split <;> simp_all
+    have : ∃ c'', stripCall el (some c') = some c'' := by unfold stripCall; split <;> (try split) <;> simp
+    obtain ⟨c'', hc⟩ := this
+    have h2 : ∀ x, raiseName x (some c'') = none := by intro x; unfold raiseName; split <;> simp_all
+    rw [hc, h1, h2]
+  | none =>
+    have hn : stripCall el none = none := rfl
+    rw [hn]
+    unfold stripCall
+    split
+    · split <;> rfl
+    · rfl
+
 theorem exec_bracketsStmt (el : List String) (ft : FTab) (fuel : Nat) (s : St) (st : Stmt) :
     exec1 ft fuel s (bracketsStmt el st) = exec1 ft fuel s st := by
   cases st
   case raise_ e c =>
     simp only [bracketsStmt]
     rw [exec1_flat _ _ _ _ rfl, exec1_flat _ _ _ _ rfl]
-    cases c with
-    | some c' =>
-      have : stripCall el (some c') ≠ none := by unfold stripCall; split <;> (try split) <;> simp
-      cases hc : stripCall el (some c') with
-      | none => exact absurd hc this
-      | some c'' => simp [flatExec, callOf, simpleExec]
-    | none =>
-      have hn : stripCall el none = none := rfl
-      rw [hn]
-      unfold stripCall
-      split
-      · split
-        · simp [flatExec, callOf, simpleExec]
-        · rfl
-      · rfl
+    simp only [flatExec, callOf, simpleExec, raiseName_stripCall]
   all_goals rfl
 
 theorem brackets_sound (el : List String) : Sound (removeBrackets el) where
